@@ -106,7 +106,7 @@ def run(rep):
         if 'exc' in t:
             rep.violation('<%s>: serialising a checked element under unchecked ancestors raises %s' % (node['tag'], t['exc']), {'document_built': node, 'observed': t})
         elif not (t['inside1'] and t['inside2'] and t['stable']):
-            rep.violation('<%s> (children supplied in shuffled order) serialises differently alone and inside unchecked ancestors' % node['tag'],
+            rep.violation('<%s> (children supplied in shuffled order) serialises differently alone, inside unchecked ancestors, or again after a deep copy of it was stripped of its attributes (flags %s)' % (node['tag'], {k: t[k] for k in ('inside1', 'inside2', 'stable')}),
                           {'document_built': node, 'alone': t.get('alone'), 'inside': t.get('in'), 'flags': {k: t[k] for k in ('inside1', 'inside2', 'stable')}})
         if 'mixed' in t:
             n_mixed += 1
